@@ -24,7 +24,7 @@ EXHAUSTIVE = True
 RULE = (
     "option lattice: grids {(2),(5),(2,2),(3,4),(4,1),(1,4),(2,2,2),(3,2,1)} x voxel sizes {unit, dyadic anisotropic} x mass pairs "
     "{corner->corner, corner->centre, dense, sparse} x {Newton, Bregman fixed, Bregman adaptive} x 3 L1 modes x 5 mobility modes x "
-    "{(full,direct),(pressure,direct),(pressure,amg),(pressure,cg),(flux_reduced,direct)} x Anderson {off, depth 2, depth 2 with restart 2} x cell weight {None, 2}; every configuration is followed by a second computation (the reversed pair) on the same solver object; "
+    "{(full,direct),(pressure,direct),(pressure,amg),(pressure,cg),(flux_reduced,direct)} x Anderson {off, depth 2, depth 2 with restart 2} x cell weight {None, 2}; every configuration is followed by a second computation (the reversed pair) on the same solver object; status ladder: each stopping criterion alone with tolerance 2^0..2^-30 on masses x16 and x1/16; two-call fault histories (fault-free call, then the reversed pair with the k-th solve failing); "
     "thorough = full product, quick = covering design in which the full (method x L1 x mobility x formulation) product is run on "
     "rotating (grid, voxel, mass, Anderson, weight) selections. Status/fault lattice: 3 grids x 2 masses x 3 methods x "
     "{(full,direct),(pressure,amg)} x Anderson {off, depth 2, depth 2 restart 2} x num_iter {1,2,3,6} x tolerances {default, 1e-10, 0}; each base run expanded by "
@@ -73,6 +73,14 @@ def cases(tier):
     for g in [(5,), (3, 4), (2, 2, 2)]:
         for m in ("corner-to-corner", "dense"):
             out.append({"kind": "tiny-default", "shape": list(g), "mass": m})
+    # status ladder: one stopping criterion decides alone, its tolerance runs over 2^0 .. 2^-30, on
+    # problems whose distance is well above and well below 1 (relative and absolute readings of
+    # a criterion differ by that factor)
+    for g in [(3, 4), (2, 2, 2)] if tier == "thorough" else [(3, 4)]:
+        for m in ("dense", "sparse"):
+            for method in METHODS:
+                for scale in (16.0, 0.0625):
+                    out.append({"kind": "status-ladder", "shape": list(g), "mass": m, "method": method, "scale": scale})
     fgrids = [(5,), (3, 4), (2, 2, 2)] if tier == "thorough" else [(5,), (3, 4)]
     for g in fgrids:
         for m in ("corner-to-corner", "dense"):
@@ -261,6 +269,21 @@ def run_fault(case, r):
             rs = Wh.run_solver(mname(method), shape, vs, m1, m2, o2)
             r.check(rs.exc is None and rs.status == base.info["converged"] and rs.distance == base.distance, f"C04/status/return_status/{mname(method)}", "return_status yields (distance, info['converged']) of the same computation", cfg=tagc)
             states.add((num_iter, tolname, ()))
+            # two-call histories on ONE solver object: a fault-free first computation, then the
+            # reversed pair with the k-th in-loop solve failing -- the status of the second
+            # computation is its own, whatever the first one reported
+            if tolname != "unreachable":
+                for k in range(1, K + 1):
+                    two = Wh.run_solver(mname(method), shape, vs, m1, m2, o, then=(m2, m1), then_fault_at=k)
+                    transitions += 2
+                    states.add((num_iter, tolname, ("then", k)))
+                    sec = two.second
+                    if two.exc is not None or sec is None or sec.exc is not None:
+                        r.fail(f"C04/fault/{mname(method)}/no-exception-escapes", "a failing inner step of a second computation on the same object does not raise out of the distance computation", exception=repr(two.exc if two.exc is not None else getattr(sec, "exc", None))[:300], cfg=dict(tagc, second_call_failed_iteration=k - 1))
+                        continue
+                    if sec.faulted_at is None:
+                        continue  # the second computation stopped before its k-th solve
+                    r.check(sec.info["converged"] is False, f"C04/fault/{mname(method)}/flagged-non-converged/reused-object", "a computation whose inner step failed is flagged non-converged also when an earlier computation on the same object converged", first_converged=two.info["converged"], cfg=dict(tagc, second_call_failed_iteration=k - 1))
             for choices, res in executions[1:]:
                 k = res.faulted_at  # 1-based in-loop call = iteration k-1 failed
                 sched_tag = dict(tagc, failed_iteration=k - 1)
@@ -331,9 +354,42 @@ def run_tiny(case, r):
         r.outcome((tagc, float(res.distance) / al))
 
 
+def run_status_ladder(case, r):
+    shape, mk, method, scale = tuple(case["shape"]), case["mass"], case["method"], case["scale"]
+    dim = len(shape)
+    vs = Wh.voxel_sizes(dim, "unit")
+    m1, m2 = Wh.mass_pairs(shape, mk)
+    m1, m2 = scale * m1, scale * m2
+    ref = None
+    stops = set()
+    for crit in ("tol_distance", "tol_increment", "tol_residual"):
+        for k in range(0, 31, 2):
+            tols = {crit: 2.0**-k}
+            o = opts_for(method, "RAVIART_THOMAS", "CELL_BASED", ("full", "direct"), 0, 25, tols)
+            if mname(method) == "bregman":
+                o["L"] = scale  # the penalty scales with the flux
+            tagc = {"shape": shape, "mass": mk, "scale": scale, "method": method, "criterion": crit, "tolerance": f"2^-{k}"}
+            res = Wh.run_solver(mname(method), shape, vs, m1, m2, o)
+            if res.exc is not None:
+                r.fail(f"C04/usable/{mname(method)}/full-direct/status-ladder", "the run completes", exception=repr(res.exc)[:300], cfg=tagc)
+                continue
+            if ref is None:
+                ref = Wh.Ref(res.grid)
+            conv = check_run(r, res, ref, m1, m2, method, "RAVIART_THOMAS", ("full", "direct"), None, o, tagc)
+            n_it = len(res.info["convergence_history"]["distance"])
+            stops.add((crit, conv, n_it))
+            r.nontriv((tagc["criterion"], k, scale, mk, method))
+    r.outcome((case["shape"], mk, method, scale, sorted(stops)))
+    r.count("states", len(stops))
+    r.count("transitions", 3 * 16)
+    r.count("traces", 3 * 16)
+
+
 def run_case(case, r):
     if case["kind"] == "tiny-default":
         return run_tiny(case, r)
+    if case["kind"] == "status-ladder":
+        return run_status_ladder(case, r)
     if case["kind"] == "options":
         run_options(case, r)
     else:
